@@ -42,21 +42,20 @@ TRUSTED = [
     "tools/props/lifelib.py projection of simulation traces (queries of type PTR/SRV/TXT/A/AAAA, ServiceRemoved, "
     "AddressesRemoved) and tools/dnsgen.py packet parser",
 ]
-PARTIAL = ("daemon level: the cache/refresh/evict layer is one Gallina text instantiated with the code's record "
-           "operations and with the property's literal ones (Model/LifeCache.v); that the two instances agree on whole "
-           "histories is checked by the monitor on every run and proved at record level (refinement relation R) and for "
-           "add_or_update / known_answers on a Vec, but not as one theorem over whole daemon histories. "
-           "refresh_needs_open_search (no refresh without a browse/resolver) is observed (no query is ever predicted "
-           "or seen for a name without an open search) but not stated as a theorem. What happens when SRV/TXT/address "
-           "records of a still-listed instance expire before its PTR is left to C05/C03 (generated histories keep the "
-           "PTR the first to expire). Timer existence (that the daemon wakes at the marks) is C12; here the timer-exact "
-           "runs observe it.")
+PARTIAL = ("daemon level: the theorem C11_daemon_level_refinement covers the cache / refresh / evict layer for one browsed "
+           "type and one resolved hostname over arbitrary histories of iterations (queries compared by their question lists, "
+           "ServiceRemoved, AddressesRemoved); the rest of the daemon around that layer (packet decoding, which channel gets the "
+           "event, retransmission schedule, resolve logic of unresolved instances) is tied by the K6 correspondence and the "
+           "monitor only. What happens when SRV/TXT/address records of a still-listed instance expire before its PTR is left to "
+           "C05/C03 (generated histories keep the PTR the first to expire). That the daemon actually wakes at the marks is C12; "
+           "here the timer-exact runs observe it. The monitor compares canonical renderings (sorted) of the extracted spec_run's "
+           "observations with the projected trace; that rendering/sorting is OCaml/Python code, not Coq.")
 
 
 def generate(rng, tier):
     quick = tier == "quick"
     cases = []
-    n = 6000 if quick else 120000
+    n = 12000 if quick else 120000
     for _ in range(n // 2):
         cases.append(Case(L.gen_life_case(rng, True), "life-daemon-ops"))
     for _ in range(n // 6):
@@ -66,11 +65,12 @@ def generate(rng, tier):
             cases.append(Case(L.mark_walk_case(rng, ttl, rng.choice([1_000_000, 1_700_000_000_000, (1 << 62)])), "mark-walk"))
     for _ in range(n // 12):
         cases.append(Case(L.gen_exp_case(rng), "exp"))
-    ns = 60 if quick else 1500
+    ns = 400 if quick else 2500
     for k in range(ns):
         cases.append(L.case_of(L.gen_host(rng, "host%d" % k), "sim-host"))
         cases.append(L.case_of(L.gen_ptr(rng, "ptr%d" % k), "sim-ptr"))
         cases.append(L.case_of(L.gen_svc(rng, "svc%d" % k), "sim-svc"))
+        cases.append(L.case_of(L.gen_mix(rng, "mix%d" % k), "sim-mix"))
     return cases
 
 
@@ -90,7 +90,7 @@ def nontrivial(line, result):
     if result == "SKIP":
         return False
     if line.startswith("lsim "):
-        return result not in ("-", "DEAD")
+        return result not in ("SIM -", "RSP -") and "DEAD" not in result
     return not line.endswith(" -")
 
 
